@@ -169,6 +169,16 @@ CHECKS['C17'] = dict(
          'they are recorded; reset empties every list with a fresh list. Known finding: WormWheel bending stress depends on the '
          'mate after construction.', design='4/C17', engine='sa.sx + sa.solver_ir + sa.extract.truth_table')
 
+CHECKS['C18'] = dict(
+    technique='static unrolling of Powertrain.snapshot (constant zip lists, guarded work lists) into its column writes with '
+              'their controlling tests (control dependence), variable/unit/data pairing by AST dataflow, interp1d call shape; '
+              'AST pairing rules for the export utility and the forwarding call',
+    text='Every snapshot column is written under the membership test of its own variable only, converted and labelled with its '
+         'own unit parameter, filled from its own recorded list, interpolated linearly with abscissae and query in seconds, and '
+         'snapshot keeps no cached state; export pairs label, conversion unit and data per variable, writes the time column in '
+         'time_unit without index, and the powertrain-level export forwards each unit to the same-named parameter. '
+         'Numeric interpolation results are not decided.', design='4/C18', engine='ast')
+
 NOT_APPLICABLE = {
     'C04': 'limit statement (error = O(dt) as dt -> 0) against an analytic oracle; no sound static argument in reach '
            'bounds a global discretisation error. Its code-shape ingredients (consistent first-order integrator, torque '
